@@ -102,9 +102,12 @@ func (l *OpenFgaDslListener) EnterMain(_ *parser.MainContext) {
 
 func (l *OpenFgaDslListener) ExitModuleHeader(ctx *parser.ModuleHeaderContext) {
 	l.isModularModel = true
+	// the map is needed as soon as the document is modular: after a syntax error in the header
+	// (`module` without a name) the tree is still walked, and an `extend type` stores into it
+	l.typeDefExtensions = map[string]*openfgav1.TypeDefinition{}
+
 	if ctx.GetModuleName() != nil {
 		l.moduleName = ctx.GetModuleName().GetText()
-		l.typeDefExtensions = map[string]*openfgav1.TypeDefinition{}
 	}
 }
 
